@@ -37,7 +37,8 @@ KNOWN_OPEN = {
 }
 # defects found by this unit and repaired since (their origins are always generated now):
 #   stray top-level `case` / labels in a catch block overflowed the compile arena (fix 5d577e5); try/catch nested in a catch block or
-#   a switch body bound a null reference (fix 0d80098); GetProgramScript(name) returned a failed script that was then run (fix 4bf1e6a)
+#   a switch body bound a null reference (fix 0d80098); GetProgramScript(name) returned a failed script that was then run (fix 4bf1e6a);
+#   a token longer than flex's 16384-byte buffer spun forever in yy_get_next_buffer (fix ddfcf5e: ParseError)
 
 ALLOWED = re.compile(r"^(ok|parse|compile:[A-Za-z]+)$")
 
@@ -424,8 +425,12 @@ def targeted_programs(tier, flags):
     add("nest-index-40", "main:\nlocal.a = local.b" + "[ local.c" * 40 + " ]" * 40 + "\nend\n")
     add("nest-unary-40", "main:\nlocal.a = " + "!" * 40 + "local.b\nend\n")
     add("long-expr", "main:\nlocal.a = " + " + ".join("local.v%d" % i for i in range(400)) + "\nend\n")
-    add("long-string", 'main:\nlocal.a = "' + "s" * 20000 + '"\nend\n')
-    add("long-ident", "main:\nlocal." + "i" * 20000 + " = 1\nend\n")
+    big = 20000
+    add("long-string", 'main:\nlocal.a = "' + "s" * big + '"\nend\n')
+    add("long-ident", "main:\nlocal." + "i" * big + " = 1\nend\n")
+    add("long-comment", "main:\n//" + "c" * big + "\n/*" + "d" * big + "*/\nend\n")
+    add("many-newlines", "main:\n" + "\n" * big + "end\n")
+    add("many-blanks", "main:\n" + " " * 70000 + "\nend\n")
     add("long-command-args", "main:\nprintln " + " ".join(str(i) for i in range(300)) + "\nend\n")
     add("stmts-1500", "main:\n" + "".join("local.v%d = %d\n" % (i, i) for i in range(1500)) + "end\n")
     add("labels-300", "main:\n" + "".join("l%d:\nlocal.a = %d\n" % (i, i) for i in range(300)) + "end\n")
@@ -468,11 +473,34 @@ NOISE_FIXED = [
     ("vector-long", b"local.a = (1 2 3 4)\n"), ("for-empty", b"for (;;) {}\n"), ("do-no-while", b"do { }\n"), ("switch-no-body", b"switch (1)\n"),
     ("try-no-catch", b"try { }\n"), ("if-no-body", b"if (1)"), ("else-chain", b"if (1) { } else if (2) { } else { }\n"), ("semicolons", b";;;;\n"),
     ("keyword-as-field", b"local.if = local.while\n"), ("listener-only", b"local\n"), ("nul-in-middle", b"main:\nprintln \"a\0b\"\nend\n"),
-    ("nul-after-token", b"main\0:\n"), ("long-line", b"println " + b"x" * 70000 + b"\n"), ("many-newlines", b"\n" * 5000), ("deep-braces-unbalanced", b"{" * 200),
+    ("nul-after-token", b"main\0:\n"), ("long-line", b"println " + b"x 1 " * 17000 + b"\n"), ("many-newlines", b"\n" * 5000), ("deep-braces-unbalanced", b"{" * 200),
     ("deep-close", b"}" * 200), ("tabs", b"main:\n\tprintln\t1\n\tend\n"), ("utf8", "main:\nprintln \"h\u00e9llo \u4e16\u754c\"\nend\n".encode("utf8")),
-    ("bom", b"\xef\xbb\xbfmain:\nend\n"), ("cr-only", b"main:\rprintln 1\rend\r"), ("16k-boundary", b"//" + b"c" * 16381 + b"\nmain:\nend\n"),
-    ("8k-string", b'println "' + b"q" * 8190 + b'"\n'), ("ident-16k", b"a" * 16384), ("ident-16k+1", b"a" * 16385 + b"\n"),
+    ("bom", b"\xef\xbb\xbfmain:\nend\n"), ("cr-only", b"main:\rprintln 1\rend\r"), ("16k-boundary", b"//" + b"c" * 16370 + b"\nmain:\nend\n"),
+    ("8k-string", b'println "' + b"q" * 8190 + b'"\n'), ("ident-16370", b"a" * 16370),
 ]
+NOISE_F6 = [("token-16390-string", b'println "' + b"q" * 16390 + b'"\n'), ("token-16390-ident", b"a" * 16390 + b"\n"),
+            ("token-16390-comment", b"//" + b"c" * 16390 + b"\nmain:\nend\n"), ("token-16390-newlines", b"\n" * 16390)]
+
+
+# flex's input buffer is 16384 bytes and cannot grow (the scanner uses REJECT): measured on the tree of fix ddfcf5e, a token whose
+# text is <= 16380 bytes is scanned, one of >= 16383 bytes (identifier: 16382) is a ParseError "input buffer overflow"
+TOKEN_OK, TOKEN_BAD = 16380, 16383
+EXPECT = {}          # text name -> required outcome class
+
+
+def long_tokens():
+    out = []
+    for n in (TOKEN_OK - 1, TOKEN_OK, TOKEN_BAD, TOKEN_BAD + 1, 16384, 16385, 32768, 40000):
+        exp = "ok" if n <= TOKEN_OK else "parse"
+        for kind, b in (("string", b'main:\nprintln "' + b"q" * (n - 2) + b'"\nend\n'),
+                        ("comment", b"main:\n//" + b"c" * (n - 2) + b"\nend\n"),
+                        ("newlines", b"main:\n" + b"\n" * n + b"end\n"),
+                        ("field", b"main:\nlocal." + b"i" * n + b" = 1\nend\n")):
+            name = "token-%s-%d" % (kind, n)
+            if not (kind == "newlines" and n <= TOKEN_OK):      # the run of newlines also holds the one after main:
+                EXPECT[name] = exp
+            out.append((name, b))
+    return out
 
 
 def mutate(tokens, rng, pool):
@@ -713,7 +741,7 @@ def gen_cases(tier, seed, flags):
     texts = []           # (origin, name, bytes)
     for name, b in targeted_programs(tier, flags):
         texts.append(("targeted", name, b))
-    for name, b in NOISE_FIXED:
+    for name, b in NOISE_FIXED + NOISE_F6 + long_tokens():
         texts.append(("noise-fixed", name, b))
     nprog = 600 if quick else 20000
     seeds = []
@@ -819,6 +847,9 @@ def judge(case, ilines, mlines):
             w = ilines[k].split()
             cls = w[2] if len(w) > 2 else "?"
             extra = w[3:]
+            nm = case.inputs[sum(1 for q in case.ops[:k] if q[0] == "C" and q[3][0] == "X")][0] if case.inputs else None
+            if nm in EXPECT and cls != EXPECT[nm]:
+                probs.append(("outcome-expected", "op %d: text %s must compile to `%s`, got `%s`" % (k, nm, EXPECT[nm], cls), k))
             if not ALLOWED.match(cls):
                 probs.append(("outcome-class", "op %d: compiling the text gave outcome class `%s` (allowed: ok | parse | compile:*)" % (k, " ".join(w[2:])), k))
             elif extra:
@@ -890,7 +921,7 @@ def check(res, tier, seed):
         "+ seeded random walks over 4 names; (B) every loop skeleton of <= 4 (5) symbols over {break, continue, while, do, switch, try/catch}, the 98..102 boundary of both jump tables in 9 shapes, "
         "depth 0..8 inside switch, seeded random skeletons; (C) arbitrary texts: targeted programs, fixed noise list, grammar-directed programs (depth <= 12, thorough also <= 40), token mutants "
         "(delete/duplicate/swap/replace/stray keyword/unbalance/stray punctuation/split), thorough: every single-token deletion of 200 programs, random byte noise; 12 texts per engine, after each: "
-        "re-request, sentinel run, fresh compile+run, run of the text's script.  non-trivial = an arbitrary text whose compilation finished in an allowed class with all six probes agreeing with the model, "
+        "re-request, sentinel run, fresh compile+run, state of the text's script (accepted texts are not executed here).  non-trivial = an arbitrary text whose compilation finished in an allowed class with all six probes agreeing with the model, "
         "or a history/skeleton of >= 3 operations/symbols. ")
     # ---- translator
     try:
@@ -1068,30 +1099,40 @@ def minimise(exe, drv, case, kind, why, cr, seed):
 
 
 def measure_catch_nesting(res):
-    """compile time of catch-in-catch nesting, plain build (finding F5 / DESIGN F-C01-c)"""
+    """compile time of catch-in-catch and switch-in-switch nesting, plain build (finding F5 / DESIGN F-C01-c)"""
+    import math
     exe = vlib.build_harness("C01", ["harness/C01.cpp"], "plain", use_lib=True)
-    times = {}
-    for d in (8, 10, 12, 14, 16, 18):
-        c = XCase("n", [("C", "1", 0, ("X", nest("catch", d).encode()))], "catch-nesting")
-        t0 = time.time()
-        rc, o, e = vlib.sh([exe], inp=c.impl_text(), timeout=60)
-        dt = time.time() - t0
-        cls = [l for l in o.splitlines() if l.startswith("m C")]
-        times[d] = {"seconds": round(dt, 3), "outcome": cls[0][4:] if cls else "rc=%s" % rc}
-        if dt > 8:
-            break
-    res.cov["catch_in_catch_compile_time"] = times
-    ds = sorted(times)
-    if len(ds) >= 3:
+    out = {}
+    for kind in ("catch", "switch"):
+        times = {}
+        for d in range(10, 31, 2):
+            c = XCase("n", [("C", "1", 0, ("X", nest(kind, d).encode()))], kind + "-nesting")
+            t0 = time.time()
+            rc, o, e = vlib.sh([exe], inp=c.impl_text(), timeout=60)
+            dt = time.time() - t0
+            cls = [l for l in o.splitlines() if l.startswith("m C")]
+            times[d] = {"seconds": round(dt, 3), "outcome": cls[0][4:] if cls else "rc=%s" % rc}
+            if dt > 2.5:
+                break
+        rec = {"times": times}
+        ds = sorted(times)
         a, b = ds[-2], ds[-1]
         ta, tb = times[a]["seconds"], times[b]["seconds"]
-        if ta > 0.05 and tb / ta > 2.5:
+        if ta > 0.1 and tb / ta > 2.5:
             per = (tb / ta) ** (1.0 / (b - a))
-            est40 = tb * per ** (40 - b)
-            res.cov["catch_in_catch_growth_per_level"] = round(per, 2)
-            res.cov["catch_in_catch_estimate_depth40_seconds"] = float("%.3g" % est40)
-            res.known_finding("%s: measured %s s at depth %d, x%.2f per level, ~%.3g s at depth 40 (plain build)" % (
-                KNOWN_OPEN["F5"]["what"], tb, b, per, est40))
+            rec["growth_per_level"] = round(per, 2)
+            rec["depth_exceeding_20s"] = int(math.ceil(b + math.log(20.0 / tb) / math.log(per)))
+            rec["estimate_depth40_seconds"] = float("%.3g" % (tb * per ** (40 - b)))
+        out[kind] = rec
+    res.cov["nested_double_emission_compile_time"] = out
+    msgs = []
+    for kind, rec in out.items():
+        if "growth_per_level" in rec:
+            last = max(rec["times"])
+            msgs.append("%s-in-%s: %.2f s at depth %d, x%.2f per level, > 20 s from depth %d, ~%.3g s at depth 40" % (
+                kind, kind, rec["times"][last]["seconds"], last, rec["growth_per_level"], rec["depth_exceeding_20s"], rec["estimate_depth40_seconds"]))
+    if msgs:
+        res.known_finding(KNOWN_OPEN["F5"]["what"] + " [measured, plain build: " + "; ".join(msgs) + "]")
 
 
 def replay(path):
